@@ -169,9 +169,8 @@ func (r *Reader) resolveHref(href string) string {
 		href = decoded
 	}
 
-	if r.baseDir == "" {
-		return href
-	}
+	// Join also cleans "." and ".." segments, which a package document in the
+	// archive root needs just as much as one in a sub-directory
 	return path.Join(r.baseDir, href)
 }
 
